@@ -328,12 +328,12 @@ STRUCT_FIELDS = {'_states', '_parent', '_children', '_transitions', 'name', 'des
 
 
 def derived_caches(prog):
-    """Fields of Statechart written by a non-mutator method outside __init__: memoised query results."""
+    """Fields of Statechart that hold derived data (memoised query results or redundant indexes): every field outside the
+    structural ones that is written outside __init__. -> {field: [(writer FuncInfo, node)]}"""
     ci = prog.cls('Statechart')
-    muts = set(MUTATORS) | {'copy_from_statechart', '__init__'}
     caches = {}
     for m in ci.methods.values():
-        if m.name in muts:
+        if m.name == '__init__':
             continue
         for c, f, k, n in prog.direct_writes(m):
             if c == 'Statechart' and f not in STRUCT_FIELDS:
@@ -341,20 +341,51 @@ def derived_caches(prog):
     return caches
 
 
+def _depends_on(prog, m, node):
+    """Structural / element fields the derived entry written at `node` is computed from: fields read (transitively through
+    the queries it calls) by the statement that writes it, and by the enclosing function when that is a query."""
+    out = set()
+    st = node
+    while st is not None and not isinstance(st, ast.stmt):
+        st = getattr(st, '_parent', None)
+    scope = [st] if st is not None else []
+    for sc in scope:
+        for n in ast.walk(sc):
+            if isinstance(n, ast.Attribute) and isinstance(n.ctx, ast.Load):
+                for c in prog.expr_types(n.value, m):
+                    out.add(prog.canon_field(c, n.attr))
+                    if prog.has_cls(c):
+                        for cc in [prog.cls(c)] + prog.subclasses(prog.cls(c)):
+                            g = prog.lookup(cc, n.attr)
+                            if g is not None and g.is_property:
+                                out |= set(prog.transitive_reads([g]))
+            if isinstance(n, ast.Call):
+                tg, ext, ok = prog.resolve_call(n, m)
+                if tg:
+                    out |= set(prog.transitive_reads(tg))
+    if m.name not in MUTATORS and m.name != 'copy_from_statechart':
+        out |= set(prog.transitive_reads([m]))
+    return out
+
+
 def cache_findings(prog):
-    """[(field, mutator FuncInfo)] : structural mutators that neither clear nor rewrite a derived cache."""
+    """[(field, mutator FuncInfo)] : edits that delete or rebind entries a derived field depends on, yet neither clear nor rewrite it."""
     out = []
     caches = derived_caches(prog)
-    for fld in caches:
-        # which structures does the memoising query depend on?
-        reads = set()
-        for m_, n_ in caches[fld]:
-            reads |= {f for (c, f) in prog.transitive_reads([m_]) if c == 'Statechart'}
+    for fld, writers in caches.items():
+        deps = set()
+        for m_, n_ in writers:
+            deps |= _depends_on(prog, m_, n_)
+        names = {f for (c, f) in deps}
         required = set()
-        if reads & {'_states', '_parent', '_children'}:
+        if names & {'_states', '_parent', '_children'}:
             required |= {'remove_state', 'rename_state', 'move_state'}      # edits that delete or rebind existing entries
-        if reads & {'_transitions'}:
-            required |= {'remove_transition', 'rotate_transition', 'remove_state', 'rename_state'}
+        if names & {'_transitions'}:
+            required |= {'remove_transition', 'remove_state'}
+        if names & {'_source', '_target'}:
+            required |= {'rotate_transition', 'rename_state'}
+        if names & {'_name'}:
+            required |= {'rename_state'}
         for name in sorted(required):
             m = prog.fn('Statechart.' + name)
             w = prog.transitive_writes([m])
@@ -370,8 +401,9 @@ FIXTURE_EDITS = [
 
 
 def rules_caches(run, P='C16', rid='.7'):
-    r = run.rule(P + rid, 'derived caches: every Statechart field memoised by a query method is cleared or rewritten by every edit that deletes or rebinds entries of the structures the query reads (a stale cached depth '
-                          'changes the order of transitions after a rename)')
+    r = run.rule(P + rid, 'derived data: every Statechart field that memoises a query result or indexes the structures redundantly is cleared or rewritten by every edit '
+                          'that deletes or rebinds entries it is computed from (a stale cached depth changes the order of transitions after a rename; a stale '
+                          'by-source index makes the exporter file a rotated transition under its old source)')
     prog = run.prog
     caches, bad = cache_findings(prog)
     for fld, m in bad:
